@@ -13,4 +13,4 @@ for c in "$@"; do
 done
 git -C /repo worktree remove --force $WT
 T=$(python3 -c "import hashlib;print(hashlib.sha256('$WT'.encode()).hexdigest()[:10])")
-rm -rf /verif/.cache/e3-alt-$T /verif/.cache/mir-target-$T
+rm -rf /verif/.cache/e3-alt-$T
